@@ -11,6 +11,7 @@ import sys
 
 VERIF = os.path.dirname(os.path.dirname(os.path.abspath(__file__)))
 pid = sys.argv[1]
+off = int(sys.argv[2]) if len(sys.argv) > 2 else 0      # later rounds are stored as ID-(K+off)
 wt, out = '/tmp/wt/' + pid, '/tmp/wt/%s.out' % pid
 head = subprocess.run(['git', '-C', wt, 'rev-parse', '--short', 'HEAD'], stdout=subprocess.PIPE, text=True).stdout.strip()
 for k in (1, 2):
@@ -24,7 +25,7 @@ for k in (1, 2):
     if not ok:
         print('%s-%d: NOT confirmed, not stored' % (pid, k))
         continue
-    d = os.path.join(VERIF, 'seeded', '%s-%d' % (pid, k))
+    d = os.path.join(VERIF, 'seeded', '%s-%d' % (pid, k + off))
     os.makedirs(d, exist_ok=True)
     shutil.copy(patch, d + '/patch.diff')
     shutil.copy(demo, d + '/demo.c')
@@ -34,7 +35,7 @@ for k in (1, 2):
     what = re.sub(r'^#+\s*', '', lines[0]) if lines else ''
     need = ' '.join(l for l in lines if re.search(r'need|manifest|trigger|shows? (up|only)', l, re.I))[:600]
     files = sorted(set(re.findall(r'^\+\+\+ b/(\S+)', open(patch).read(), re.M)))
-    meta = dict(id='%s-%d' % (pid, k), property=pid, what=what, needs_to_manifest=need, files_changed=files,
+    meta = dict(id='%s-%d' % (pid, k + off), property=pid, what=what, needs_to_manifest=need, files_changed=files,
                 origin='written by a fresh sub-agent given only the property text and a scratch worktree of /repo (nothing from /verif)',
                 confirmed_by_me=dict(commands=['git apply patch.diff && make -j4 && make -j4 check   (in a scratch worktree of /repo at %s)' % head,
                                                'gcc -I src -I . -DHAVE_CONFIG_H demo.c src/.libs/libconfuse.a -o demo && ./demo   (with the change, then again after git checkout -- . && make)'],
